@@ -1580,13 +1580,18 @@ func judge(res *Result, o outcome, prop string, mu *sync.Mutex) {
 	// ---- oracle C11: compare never changes the device
 	if prop == "C11" || true {
 		if ch, i := hasChange(o.cmp.kinds); ch || o.cmp.hashPre != o.cmp.hashPost {
-			line := ""
+			// two independent witnesses: the simulator's classification of the received lines, and the
+			// hash of the device state (devstate.go) before and after the run
+			line, by := "", "state_hash"
 			if i >= 0 {
-				line = o.cmp.lines[i]
+				line, by = o.cmp.lines[i], "classification"
+				if o.cmp.hashPre != o.cmp.hashPost {
+					by = "classification+state_hash"
+				}
 			}
 			if prop == "C11" {
-				res.Fail(map[string]any{"pred": "compare_changed_device", "backend": c.Backend},
-					"compare sent a configuration-changing request or a save: "+line, c)
+				res.Fail(map[string]any{"pred": "compare_changed_device", "backend": c.Backend, "by": by},
+					fmt.Sprintf("compare sent a configuration-changing request or a save: %s (device state hash before %s, after %s)", line, o.cmp.hashPre, o.cmp.hashPost), c)
 			} else {
 				res.Count("c11-violation-seen-by-c06")
 			}
